@@ -87,6 +87,43 @@ func c19RunID(ctx *Ctx, c c19IDCase) {
 			fail("RelativeVersionedURIString", s)
 			return
 		}
+		// identities derived from an identity that has already been formatted
+		v2 := c.Version + "2"
+		if len(v2) > 64 {
+			v2 = "2"
+		}
+		nv, un := ident.WithNewVersion(v2), ident.Unversioned()
+		relv2 := rel + "/_history/" + v2
+		if why := sameIdentity(nv, c.Type, c.ID, v2); why != "" {
+			fail("WithNewVersion accessors", why)
+			return
+		}
+		if s, ok := nv.RelativeVersionedURIString(); !ok || s != relv2 || nv.String() != relv2 || nv.PreferRelativeVersionedURIString() != relv2 || nv.RelativeURIString() != rel {
+			fail("WithNewVersion: formatting does not show the new version", fmt.Sprintf("versioned=%q String=%q Prefer=%q, want %q", s, nv.String(), nv.PreferRelativeVersionedURIString(), relv2))
+			return
+		}
+		if u, ok := nv.RelativeVersionedURI(); !ok || u.GetValue() != relv2 || nv.PreferRelativeVersionedURI().GetValue() != relv2 {
+			fail("WithNewVersion: formatting does not show the new version (Uri)", fmt.Sprintf("%q", u.GetValue()))
+			return
+		}
+		if why := sameIdentity(un, c.Type, c.ID, ""); why != "" || un.String() != rel || un.PreferRelativeVersionedURIString() != rel {
+			fail("Unversioned", fmt.Sprintf("%s String=%q", why, un.String()))
+			return
+		}
+		if _, ok := un.RelativeVersionedURIString(); ok {
+			fail("Unversioned: still formats a versioned URI", "")
+			return
+		}
+		if why := sameIdentity(ident, c.Type, c.ID, c.Version); why != "" || ident.String() != relv {
+			fail("deriving an identity changed the original", why+" String="+ident.String())
+			return
+		}
+		if c.Type != "Parameters" {
+			if back, err := reference.IdentityOf(reference.TypedFromIdentity(nv)); err != nil || sameIdentity(back, c.Type, c.ID, v2) != "" {
+				fail("TypedFromIdentity(WithNewVersion(..)) does not carry the new version", fmt.Sprintf("%v %s", err, sameIdentity(back, c.Type, c.ID, v2)))
+				return
+			}
+		}
 		// every formatted string parses back to the same components
 		for _, s := range []string{rel, relv} {
 			wantV := ""
